@@ -1,6 +1,7 @@
 // Engine W driver: rapidcheck generation, replay, bounded enumerations.
 #include <rapidcheck.h>
 #include <fcntl.h>
+#include <functional>
 #include <iostream>
 #include "wgen.hpp"
 #include "winterp.hpp"
@@ -150,6 +151,128 @@ static int do_replay(const std::string& path, bool verbose) {
   return bad ? 1 : 0;
 }
 
+// ---- bounded exhaustive scopes -------------------------------------------------------------
+static Op mk_create(int slot, int obj, int func, int nseq, int s0, int s1, long lo, long hi, int mk, int mv, int lit = -1) {
+  Op o; o.kind = O_CREATE; o.a.assign(CA_N, 0);
+  o.a[CA_SLOT] = slot; o.a[CA_OBJ] = obj; o.a[CA_FUNC] = func; o.a[CA_NSEQ] = nseq; o.a[CA_SEQ0] = s0; o.a[CA_SEQ1] = s1;
+  o.a[CA_LO] = static_cast<int>(lo); o.a[CA_HI] = hi == INF ? -1 : static_cast<int>(hi); o.a[CA_M0K] = mk; o.a[CA_M0V] = mv; o.a[CA_LIT] = lit;
+  if (lit >= 0) lit_fill(o);
+  return o;
+}
+static Op mk_call(int obj, int func, int a0, int a1 = 0) { return Op{O_CALL, {obj, func, a0, a1}}; }
+
+static bool enum_case(const std::vector<Op>& ops, unsigned perm, long& idx) {
+  ++idx;
+  if ((idx % A.nshards) != A.shard) return true;
+  std::string why;
+  if (!run_case(ops, perm, &why)) { fprintf(stderr, "enumeration case %ld fails: %s\n", idx, why.c_str()); return false; }
+  return true;
+}
+
+// C03: every (L,H), every spelling, every stacking, n = 0..H+3 calls, flags swept after every call
+static bool enum_c03() {
+  long idx = 0;
+  std::vector<std::pair<long, long>> bounds;
+  for (long l = 0; l <= 5; ++l) { for (long h = std::max(l, 1L); h <= 5; ++h) bounds.push_back({l, h}); bounds.push_back({l, INF}); }
+  bounds.push_back({0, 0});
+  for (int stacking = 0; stacking < 4; ++stacking) {
+    auto prefix = [&](std::vector<Op>& ops) {
+      if (stacking == 1) ops.push_back(mk_create(1, 0, F_f, 0, 0, 1, 0, INF, M_WILD, 0));      // older allow-all below
+      if (stacking == 2) ops.push_back(mk_create(1, 0, F_f, 0, 0, 1, 1, 1, M_VALUE, 1));       // older bounded below
+    };
+    auto suffix = [&](std::vector<Op>& ops) {
+      if (stacking == 3) ops.push_back(mk_create(2, 0, F_f, 0, 0, 1, 0, INF, M_VALUE, 2));     // newer non-matching above
+    };
+    for (auto& b : bounds) {
+      long top = (b.second == INF ? b.first : b.second) + 3;
+      for (long n = 0; n <= top; ++n) {
+        std::vector<Op> ops;
+        prefix(ops);
+        ops.push_back(mk_create(0, 0, F_f, 0, 0, 1, b.first, b.second, M_VALUE, 1));
+        suffix(ops);
+        for (long i = 0; i < n; ++i) ops.push_back(mk_call(0, F_f, 1));
+        if (!enum_case(ops, static_cast<unsigned>(n), idx)) return false;
+      }
+    }
+    // compile-time spellings (literal sites 0..9 on f, 10/11 on g, 12 on v)
+    for (int lit = 0; lit < NLITFORM; ++lit) {
+      const LitForm& f = lit_forms()[lit];
+      long top = (f.hi == INF ? f.lo : f.hi) + 3;
+      int arg = f.m0.kind == M_VALUE || f.m0.kind == M_EQ ? f.m0.val : f.m0.kind == M_LT ? 1 : f.m0.kind == M_GE ? 3 : f.m0.kind == M_NE ? 2 : f.with0 == W_GT2 ? 4 : 1;
+      for (long n = 0; n <= top; ++n) {
+        std::vector<Op> ops;
+        if (f.func == F_f) prefix(ops);
+        ops.push_back(mk_create(NSLOT, 0, f.func, 0, 0, 1, f.lo, f.hi, f.m0.kind, f.m0.val, lit));
+        if (f.func == F_f) suffix(ops);
+        for (long i = 0; i < n; ++i) ops.push_back(mk_call(0, f.func, arg, 2));
+        if (!enum_case(ops, static_cast<unsigned>(n), idx)) return false;
+      }
+    }
+    // RT_TIMES(lo > hi): logic_error, nothing left behind (alone and after IN_SEQUENCE)
+    for (int nseq = 0; nseq <= 2; ++nseq) for (long lo = 1; lo <= 3; ++lo) for (long hi = (nseq ? 1 : 0); hi < lo; ++hi) {
+      std::vector<Op> ops;
+      prefix(ops);
+      ops.push_back(mk_create(0, 0, F_f, nseq, 0, 1, lo, hi, M_VALUE, 1));
+      ops.push_back(mk_call(0, F_f, 1));
+      ops.push_back(mk_create(0, 0, F_f, nseq, 0, 1, 1, 1, M_VALUE, 1));
+      ops.push_back(mk_call(0, F_f, 1));
+      if (!enum_case(ops, 0, idx)) return false;
+    }
+  }
+  ST.label("c03_enumerated_cases", static_cast<uint64_t>(idx));
+  return true;
+}
+
+// C05: N <= 3 participants (expectations on distinct argument values, or destruction monitors), K <= 2 sequences,
+// every membership, bounds from {(0,inf),(1,1),(1,2),(2,2),(1,inf)}, every call/destruction string up to maxlen
+static bool enum_c05(int N, int K, int maxlen) {
+  long idx = 0;
+  static const long B[5][2] = {{0, INF}, {1, 1}, {1, 2}, {2, 2}, {1, INF}};
+  int nmemb = K == 1 ? 2 : 4;  // subsets of the K sequences
+  std::vector<int> memb(static_cast<size_t>(N), 0), bnd(static_cast<size_t>(N), 0), kind(static_cast<size_t>(N), 0);
+  // odometer over (kind, membership, bound) per participant; monitors use bound index 0 only
+  std::function<bool(int)> rec = [&](int p) -> bool {
+    if (p == N) {
+      // all strings up to maxlen
+      std::vector<int> str;
+      std::function<bool()> strings = [&]() -> bool {
+        std::vector<Op> ops;
+        for (int q = 0; q < N; ++q) {
+          int m = memb[static_cast<size_t>(q)];
+          int nseq = (m & 1) + ((m >> 1) & 1);
+          int s0 = (m & 1) ? 0 : 1, s1 = 1;
+          if (kind[static_cast<size_t>(q)] == 0)
+            ops.push_back(mk_create(q, 0, F_f, nseq, s0, s1, B[bnd[static_cast<size_t>(q)]][0], B[bnd[static_cast<size_t>(q)]][1], M_VALUE, q));
+          else
+            ops.push_back(Op{O_WATCH, {q, 0, nseq, s0, s1}});
+        }
+        for (int x : str) {
+          if (kind[static_cast<size_t>(x)] == 0) ops.push_back(mk_call(0, F_f, x));
+          else ops.push_back(Op{O_DESTROY_DW, {x}});
+        }
+        if (!enum_case(ops, static_cast<unsigned>(idx % 4999), idx)) return false;
+        if (static_cast<int>(str.size()) < maxlen) {
+          for (int x = 0; x < N; ++x) { str.push_back(x); if (!strings()) return false; str.pop_back(); }
+        }
+        return true;
+      };
+      return strings();
+    }
+    for (int k = 0; k < 2; ++k) {
+      kind[static_cast<size_t>(p)] = k;
+      for (int m = 0; m < nmemb; ++m) {
+        memb[static_cast<size_t>(p)] = m;
+        int nb = k == 0 ? 5 : 1;
+        for (int b = 0; b < nb; ++b) { bnd[static_cast<size_t>(p)] = b; if (!rec(p + 1)) return false; }
+      }
+    }
+    return true;
+  };
+  bool ok = rec(0);
+  ST.label("c05_enumerated_cases", static_cast<uint64_t>(idx));
+  return ok;
+}
+
 int main(int argc, char** argv) {
   A = vc::parse_args(argc, argv);
   if (A.profile.empty()) A.profile = "all";
@@ -161,6 +284,25 @@ int main(int argc, char** argv) {
     int rc = do_replay(A.replay, A.has("verbose") || !A.has("quiet"));
     ST.write(A.out);
     return rc;
+  }
+  if (A.has("enum")) {
+    std::string e = A.get("enum");
+    bool ok = true;
+    ST.exhaustive = true;
+    if (e == "c03") {
+      ST.rule = "exhaustive: every (L,H) with 0<=L<=H<=5, H=inf and (0,0) via RT_TIMES, every compile-time spelling at the literal sites, x 4 stackings (alone, over an older allow-all, over an older bounded expectation, under a newer non-matching one) x n = 0..H+3 calls, flags swept after every step; RT_TIMES(lo>hi) alone and after IN_SEQUENCE. non-trivial = some flag changes value; distinct by operation list";
+      ok = enum_c03();
+    } else {
+      int N = static_cast<int>(A.geti("N", 3)), K = static_cast<int>(A.geti("K", 1)), len = static_cast<int>(A.geti("len", 4));
+      ST.rule = "exhaustive small scope: N<=" + std::to_string(N) + " participants (expectation on its own argument value | destruction monitor) registered in order, K<=" + std::to_string(K) +
+                " sequences, every membership, bounds from {(0,inf),(1,1),(1,2),(2,2),(1,inf)}, every call/destruction string of length <=" + std::to_string(len) + "; shard " + std::to_string(A.shard) + "/" + std::to_string(A.nshards) +
+                ". non-trivial = some step ineligible when attempted or a handler passes over pending predecessors";
+      ok = true;
+      for (int n = 1; n <= N && ok; ++n) ok = enum_c05(n, K, len);
+    }
+    if (!ok && !g_last_fail.empty()) ST.violations.push_back({g_last_fail, "oracle disagreement in the exhaustive scope (see replay header)"});
+    ST.write(A.out);
+    return ok ? 0 : 1;
   }
   Profile prof = make_profile(A.profile);
   long max_ops = A.geti("maxops", 48);
